@@ -173,28 +173,29 @@ func runEngines(es engineSet, tier string, sink *report.Sink) (errs []string) {
 		}
 	}
 	if es.gen {
+		// the two front ends are independent: a template interface the abstract expansion does not
+		// model must not hide what the regenerated corpora show (and vice versa)
+		var ins []*gen.Instance
 		m, err := variants.ReadModel(repo)
 		if err != nil {
 			errs = append(errs, "variants: "+err.Error())
+		} else if xs, err := m.Expand(tier == "thorough"); err != nil {
+			errs = append(errs, "variants: "+err.Error())
 		} else {
-			ins, err := m.Expand(tier == "thorough")
-			if err != nil {
+			ins = xs
+			if err := m.ReportDecisions(sink); err != nil {
 				errs = append(errs, "variants: "+err.Error())
-			} else {
-				if !es.noRegen {
-					ys, yerr := regenInstances(repo.Dir, tier, sink)
-					if yerr != nil {
-						errs = append(errs, "regen: "+yerr.Error())
-					}
-					ins = append(ins, ys...)
-				}
-				sink.SetFact("variants.expanded", len(ins))
-				if err := m.ReportDecisions(sink); err != nil {
-					errs = append(errs, "variants: "+err.Error())
-				}
-				gen.Run(ins, sink)
 			}
 		}
+		if !es.noRegen {
+			ys, yerr := regenInstances(repo.Dir, tier, sink)
+			if yerr != nil {
+				errs = append(errs, "regen: "+yerr.Error())
+			}
+			ins = append(ins, ys...)
+		}
+		sink.SetFact("variants.expanded", len(ins))
+		gen.Run(ins, sink)
 	}
 	return errs
 }
